@@ -77,7 +77,9 @@ class CountFeatureCompressionTransformer(BaseEstimator, TransformerMixin):
             )
             self.components_ = np.eye(X.shape[1])
             self.component_scaling_ = np.ones(X.shape[1])
-            return X
+            self.metric_ = "cosine"
+            # the uncompressed representation, exactly as transform computes it
+            return self.transform(X)
 
         if scipy.sparse.isspmatrix(X):
             if np.any(X.data < 0.0):
